@@ -345,7 +345,8 @@ class MinFlowDecompCycles(walkmodel.AbstractWalkModelDiGraph):
 
         if self._generating_set is not None:
             if self.optimization_options.get("add_min_gen_set_to_given_weights", MinFlowDecompCycles.add_min_gen_set_to_given_weights):
-                all_weights.update(self._generating_set)
+                # As in MinFlowDecomp: elements that are zero up to the solver tolerance are not weights
+                all_weights.update(weight for weight in self._generating_set if weight > 1e-9)
             all_weights_list = list(all_weights)
 
         given_weights_optimization_options = copy.deepcopy(self.optimization_options)
